@@ -31,6 +31,8 @@ type docView struct {
 	// packages); foreignSeen the inlined foreign definitions already compared.
 	All         ast.Schemas
 	foreignSeen map[string]bool
+	// Pre is the IR before the schema languages' own compiler passes (checkUnions).
+	Pre ast.Schemas
 }
 
 // hasHomonym tells whether a package other than the referred one defines an object of the same name.
@@ -491,4 +493,236 @@ func (v *docView) checkRefs() {
 		}
 	}
 	walk(v.Root, "the document root", false)
+}
+
+// ---- clause (2)/(4) for unions: every alternative of the IR is carried over ---------------------
+//
+// "every object ... of the IR appears", "enum values ... carried over
+// unchanged": a union of the IR (as loaded, before the emitter's own compiler
+// passes) lists alternatives; each of them - a constant, the members of an
+// enum, a reference, a scalar kind, an inline struct/array/map - must still
+// be one of the alternatives the emitted fragment lists. Both sides are
+// flattened first (A | (B | C) = A | B | C, also through references to objects
+// that are unions), so a legitimate flattening or un-flattening is neutral.
+// Leniences: `any`, null (judged by the nullable clause), intersections,
+// constant references and composable slots are not demanded; an emitted
+// alternative `{}` (accepts everything) satisfies every demand.
+
+func (v *docView) checkUnions(schema *ast.Schema) {
+	schema.Objects.Iterate(func(_ string, obj ast.Object) {
+		if def, ok := v.Defs[obj.Name]; ok {
+			v.walkUnions(obj.Type, def, obj.Name, "object", 0)
+		}
+	})
+}
+
+func (v *docView) walkUnions(t ast.Type, frag any, at, pos string, depth int) {
+	m, ok := asMap(frag)
+	if !ok || depth > 8 {
+		return
+	}
+	switch t.Kind {
+	case ast.KindStruct:
+		props, _ := asMap(m["properties"])
+		for _, f := range t.Struct.Fields {
+			if p, ok := props[f.Name]; ok {
+				v.walkUnions(f.Type, p, at+"."+f.Name, "field", depth+1)
+			}
+		}
+	case ast.KindArray:
+		if items, ok := m["items"]; ok {
+			v.walkUnions(t.Array.ValueType, items, at+"[]", "array item", depth+1)
+		}
+	case ast.KindMap:
+		if ap, ok := m["additionalProperties"]; ok {
+			v.walkUnions(t.Map.ValueType, ap, at+"{}", "map value", depth+1)
+		}
+	case ast.KindDisjunction:
+		v.count("unions-compared")
+		want := v.irAlternatives(t, map[string]bool{}, 0)
+		got := v.emittedAlternatives(m, map[string]bool{}, 0)
+		for _, g := range got {
+			if len(g) == 0 {
+				return // an alternative that accepts everything
+			}
+		}
+		for _, w := range want {
+			v.count("union-alternatives-compared")
+			if class, missing := v.alternativeMissing(w, got); missing {
+				v.report("union alternative of the IR does not appear", class+" in a "+pos,
+					fmt.Sprintf("%s: the union of the IR lists %s; the emitted alternatives are %s", at, class+" "+describeAlt(w), short(got)))
+			}
+		}
+	}
+}
+
+func describeAlt(t ast.Type) string {
+	switch t.Kind {
+	case ast.KindScalar:
+		if t.Scalar.Value != nil {
+			return canonOf(t.Scalar.Value)
+		}
+		return string(t.Scalar.ScalarKind)
+	case ast.KindEnum:
+		var l []string
+		for _, m := range t.Enum.Values {
+			l = append(l, canonOf(m.Value))
+		}
+		return "[" + strings.Join(l, ",") + "]"
+	case ast.KindRef:
+		return t.Ref.String()
+	}
+	return string(t.Kind)
+}
+
+// irAlternatives flattens a union of the IR: nested unions and references to objects that are unions.
+func (v *docView) irAlternatives(t ast.Type, seen map[string]bool, depth int) []ast.Type {
+	if depth > 8 {
+		return nil
+	}
+	switch t.Kind {
+	case ast.KindDisjunction:
+		var out []ast.Type
+		for _, b := range t.Disjunction.Branches {
+			out = append(out, v.irAlternatives(b, seen, depth+1)...)
+		}
+		return out
+	case ast.KindRef:
+		if obj, ok := v.Pre.LocateObject(t.Ref.ReferredPkg, t.Ref.ReferredType); ok && obj.Type.Kind == ast.KindDisjunction && !seen[t.Ref.String()] {
+			seen[t.Ref.String()] = true
+			return v.irAlternatives(obj.Type, seen, depth+1)
+		}
+	}
+	return []ast.Type{t}
+}
+
+// emittedAlternatives flattens anyOf / oneOf lists, also through $refs to definitions that are such lists.
+func (v *docView) emittedAlternatives(m map[string]any, seen map[string]bool, depth int) []map[string]any {
+	if depth > 8 {
+		return nil
+	}
+	for _, key := range []string{"anyOf", "oneOf"} {
+		if l, ok := m[key].([]any); ok {
+			var out []map[string]any
+			for _, e := range l {
+				if em, ok := asMap(e); ok {
+					out = append(out, v.emittedAlternatives(em, seen, depth+1)...)
+				}
+			}
+			return out
+		}
+	}
+	if r, ok := m["$ref"].(string); ok && !seen[r] {
+		if target, ok := asMap(v.Defs[r[strings.LastIndex(r, "/")+1:]]); ok {
+			_, any1 := target["anyOf"].([]any)
+			_, one := target["oneOf"].([]any)
+			if any1 || one {
+				seen[r] = true
+				return v.emittedAlternatives(target, seen, depth+1)
+			}
+		}
+	}
+	return []map[string]any{m}
+}
+
+func jsonTypeOf(k ast.ScalarKind) string {
+	switch k {
+	case ast.KindString, ast.KindBytes:
+		return "string"
+	case ast.KindBool:
+		return "boolean"
+	case ast.KindFloat32, ast.KindFloat64:
+		return "number"
+	case ast.KindAny, ast.KindNull:
+		return ""
+	}
+	return "integer"
+}
+
+func hasType(m map[string]any, want ...string) bool {
+	var types []string
+	switch x := m["type"].(type) {
+	case string:
+		types = []string{x}
+	case []any:
+		for _, e := range x {
+			if s, ok := e.(string); ok {
+				types = append(types, s)
+			}
+		}
+	}
+	for _, t := range types {
+		for _, w := range want {
+			if t == w || w == "integer" && t == "number" {
+				return true
+			}
+		}
+	}
+	return false
+}
+
+// carriesValue: the alternative names the value (const, or a member of its enum).
+func carriesValue(m map[string]any, value any) bool {
+	want := canonOf(value)
+	if c, ok := m["const"]; ok && canonOf(c) == want {
+		return true
+	}
+	if l, ok := m["enum"].([]any); ok {
+		for _, e := range l {
+			if canonOf(e) == want {
+				return true
+			}
+		}
+	}
+	return false
+}
+
+func (v *docView) alternativeMissing(w ast.Type, got []map[string]any) (class string, missing bool) {
+	anyAlt := func(pred func(m map[string]any) bool) bool {
+		for _, g := range got {
+			if pred(g) {
+				return true
+			}
+		}
+		return false
+	}
+	switch w.Kind {
+	case ast.KindScalar:
+		if w.Scalar.Value != nil {
+			return "constant", !anyAlt(func(m map[string]any) bool { return carriesValue(m, w.Scalar.Value) })
+		}
+		jt := jsonTypeOf(w.Scalar.ScalarKind)
+		if jt == "" {
+			return "", false
+		}
+		if len(w.Scalar.Constraints) == 0 {
+			// an unconstrained alternative is only carried over by an alternative that does not restrict the type
+			return "unconstrained scalar", !anyAlt(func(m map[string]any) bool {
+				for _, k := range []string{"const", "enum", "minLength", "maxLength", "pattern", "minimum", "maximum", "exclusiveMinimum", "exclusiveMaximum", "multipleOf"} {
+					if _, restricted := m[k]; restricted {
+						return false
+					}
+				}
+				return hasType(m, jt)
+			})
+		}
+		return "scalar", !anyAlt(func(m map[string]any) bool { return hasType(m, jt) })
+	case ast.KindEnum:
+		for _, member := range w.Enum.Values {
+			member := member
+			if !anyAlt(func(m map[string]any) bool { return carriesValue(m, member.Value) }) {
+				return "enum member", true
+			}
+		}
+	case ast.KindRef:
+		return "reference", !anyAlt(func(m map[string]any) bool {
+			r, ok := m["$ref"].(string)
+			return ok && strings.HasSuffix(r[strings.LastIndex(r, "/")+1:], w.Ref.ReferredType)
+		})
+	case ast.KindStruct, ast.KindMap:
+		return "inline " + string(w.Kind), !anyAlt(func(m map[string]any) bool { return hasType(m, "object") })
+	case ast.KindArray:
+		return "inline array", !anyAlt(func(m map[string]any) bool { return hasType(m, "array") })
+	}
+	return "", false
 }
